@@ -21,6 +21,7 @@ pub const TAG_CLEAN: u64 = 1 << 40;
 pub const TAG_OP: u64 = 2 << 40;
 pub const TAG_CONNECT: u64 = 3 << 40;
 pub const TAG_FAULTS_ON: u64 = 4 << 40;
+pub const TAG_ANCHORED: u64 = 7 << 40;
 pub const TAG_USER: u64 = 8 << 40;
 
 #[derive(Clone, Debug)]
@@ -96,6 +97,10 @@ pub struct BasicOpts {
     pub dgram: Option<crate::dgram::DgCfg>,
     /// the world is not complete before every timed operation has run
     pub run_all_ops: bool,
+    /// probability x/1000 of operations anchored to the moment a side reports `Connected`
+    /// (key updates and pings a drawn, short delay after it: the window before the handshake
+    /// is confirmed, and back-to-back key updates, are otherwise hit by luck only)
+    pub anchored_rate: u32,
 }
 
 impl Default for BasicOpts {
@@ -142,6 +147,7 @@ impl Default for BasicOpts {
             link_mtu_choices: vec![65_535],
             dgram: None,
             run_all_ops: false,
+            anchored_rate: 150,
         }
     }
 }
@@ -171,6 +177,8 @@ pub struct Basic {
     pub udp_payload_s: u16,
     pub udp_payload_c: Vec<u16>,
     pub dg: Option<crate::dgram::DgramLoad>,
+    /// (anchored to the client's `Connected`?, delay, operation, armed)
+    pub anchored: Vec<(bool, Ns, TimedOp, bool)>,
 }
 
 impl Basic {
@@ -317,6 +325,19 @@ impl Basic {
             w.wake_at(*at, TAG_OP + i as u64);
         }
 
+        // operations anchored to `Connected`
+        let mut anchored = Vec::new();
+        if opts.op_kinds.contains(&0) && w.ch.chance("basic.anchored", opts.anchored_rate, 1000) {
+            let n = 1 + w.ch.choose("anchored.n", 3);
+            let at_client = w.ch.chance("anchored.side", 1, 2);
+            for _ in 0..n {
+                let delay = *w.ch.pick("anchored.delay", &[0, 1000, w.net.base_delay / 2, w.net.base_delay, 2 * w.net.base_delay + MS, 10 * w.net.base_delay]);
+                let client = w.ch.chance("anchored.op_client", 1, 2) == at_client;
+                let op = if w.ch.chance("anchored.ping", 1, 4) { TimedOp::Ping { client } } else { TimedOp::KeyUpdate { client } };
+                anchored.push((at_client, delay, op, false));
+            }
+        }
+
         // feasibility: how many bytes can a sender move within the clean-phase budget when the
         // smallest window it will ever face allows `min_w` bytes per round trip
         let rtts = (opts.plan_time / (2 * w.net.base_delay + w.net.jitter + 60 * MS)).max(1);
@@ -355,6 +376,7 @@ impl Basic {
             server_addr,
             completed_at: None,
             server_plans_n: 0,
+            anchored,
             opts,
         };
         // connections: the first immediately, others at chosen instants
@@ -525,6 +547,20 @@ impl Scenario for Basic {
     }
 
     fn on_event(&mut self, w: &mut World, inc: u32, ev: Event) {
+        if matches!(ev, Event::Connected) && !self.anchored.is_empty() {
+            if let Some(&c0) = self.client_incs.first() {
+                let is_client = inc == c0;
+                let is_server = w.conns[c0 as usize].peer == inc;
+                if is_client || is_server {
+                    for (i, a) in self.anchored.iter_mut().enumerate() {
+                        if a.0 == is_client && !a.3 {
+                            a.3 = true;
+                            w.wake_in(a.1, TAG_ANCHORED + i as u64);
+                        }
+                    }
+                }
+            }
+        }
         self.wl.on_event(w, inc, &ev);
         if let Some(dg) = self.dg.as_mut() {
             dg.on_event(w, inc, &ev);
@@ -554,6 +590,10 @@ impl Scenario for Basic {
             self.start_conn(w, (tag - TAG_CONNECT) as usize);
         } else if tag >= TAG_OP && tag < TAG_OP + (1 << 20) {
             let op = self.ops[(tag - TAG_OP) as usize].1.clone();
+            self.do_op(w, op);
+        } else if tag >= TAG_ANCHORED && tag < TAG_ANCHORED + (1 << 20) {
+            let op = self.anchored[(tag - TAG_ANCHORED) as usize].2.clone();
+            w.probes.hit("anchored_op");
             self.do_op(w, op);
         }
     }
